@@ -50,7 +50,7 @@ def opTexts : List (List Char) :=
 
 /-- two characters that together spell an operator or open a comment -/
 def digraphs : List (List Char) :=
-  ["++", "--", "+=", "-=", "==", "<=", ">=", "<-", "->", "*=", "/=", "**", "!=", "<!", "&&", "||", "//", "/*"].map String.toList
+  ["++", "--", "+=", "-=", "==", "<=", ">=", "<-", "->", "*=", "/=", "**", "!=", "<!", "&&", "||", ":=", "//", "/*"].map String.toList
 
 def digraph (a c : Char) : Bool := digraphs.contains [a, c]
 
